@@ -190,6 +190,12 @@ func verifPause() {
 		time.Sleep(time.Millisecond)
 	}
 }
+func verifPauseAny() { verifPause() }
+
+// verifSettle: natively give the goroutines started so far a moment to run (no happens-before edge);
+// a no-op in the executor, where the scheduler explores the orders.
+func verifSettle() { time.Sleep(2 * time.Millisecond) }
+
 func verifLive() int {
 	buf := make([]byte, 1<<20)
 	buf = buf[:runtime.Stack(buf, true)]
